@@ -91,6 +91,9 @@ def _templates(ctx, rng):
         lambda: ['Call', P('tok'), {'t': 'list', 'v': [{'t': 'spec', 'v': P()}]}, None],
         lambda: ['Invoke', P('tok'), [['S', [P()], {}], ['C', [1], {}]]],
         lambda: ['Fill', ['lit', {'t': 'list', 'v': [{'t': 'spec', 'v': P()}, 3]}]],
+        lambda: ['Fill', ['lit', {'t': rng.choice(['tuple', 'tuple', 'set', 'frozenset']), 'v': [{'t': 'spec', 'v': P('tok')}, 3]}]],
+        lambda: ['Coalesce', [['str', 'never.there']], {'default': {'t': rng.choice(['tuple', 'set', 'list']), 'v': [{'t': 'spec', 'v': P('tok')}]}}],
+        lambda: ['Call', ['fn', 'argpack'], {'t': 'list', 'v': [{'t': 'tuple', 'v': [{'t': 'spec', 'v': P()}, 1]}]}, None],
         lambda: ['tuple', [['Val', simd()], ['Merge', ['Val', {'t': 'list', 'v': [simd(), {'t': 'dict', 'v': [['z', 1]]}]}]]]],
         lambda: ['custom', ctx.new_pid(), P(), 'reenter'],
         lambda: ['tuple', [['Val', {'t': 'simnum', 'n': n(), 'v': rng.randint(1, 9)}],
@@ -139,7 +142,8 @@ def gen_item(seed, tier):
     pool = list(catalogue.EXC_ONLY) + list(catalogue.BASE_ONLY)
     special = ['UGlomKwOnly', 'UGlomArity', 'UserRewrite', 'UserKwOnly', 'UserArity', 'UGlomErr',
                'UGlomErrInit', 'UGlomMixed', 'UGlomRewrite', 'KeyboardInterrupt', 'UserBase', 'UserKeyErr',
-               'UGlomLookup', 'OverflowError', 'ArithmeticError', 'ZeroDivisionError']
+               'UGlomLookup', 'OverflowError', 'ArithmeticError', 'ZeroDivisionError', 'StopIteration',
+               'StopIteration']
     classes = rng.sample(pool, 2) + [rng.choice(special)]
     if rng.random() < 0.12:
         classes += ['UserErr', 'UserErrTwin']      # two unrelated classes with the same __name__
@@ -274,6 +278,8 @@ def eval_plan(G, item, plan, variants, stats):
             kind = sk.get('kind', 'unknown')
             X = type(inj_a)
             exp = _expected_translation(G, kind, X, sk)
+            if issubclass(X, StopIteration) and sk.get('lazy_stream'):
+                exp = None          # (PEP 479 inside Iter's own generator: Python's rule, not a translation by glom)
             if exp is not None:
                 want, chk = exp
                 if want == 'self':
